@@ -1707,8 +1707,10 @@ size_t rtosc_scan_arg_val(const char* src,
             {
                 last_bufsize = *bufsize;
 
+                // args_before counts slots (a range before takes 2 or 3)
                 src += rtosc_scan_arg_val(src, arg, nargs,
-                                          buffer_for_strings, bufsize, i, 1);
+                                          buffer_for_strings, bufsize,
+                                          num_read, 1);
                 arrtype = arg->type;
                 if(arrtype == '-')
                     arrtype = rtosc_av_rep_has_delta(arg) ? arg[2].type : arg[1].type;
